@@ -460,7 +460,7 @@ def handleMc (focus : String) (c : Case) : String := Id.run do
               acc := { acc with mon := acc.mon.push s!"coverage-{section_}[{idx}]-p={fmtF pr}-freq={fmtF freq}-bound={fmtF bound}" }
             idx := idx + 1
           | none => pure ()
-    if l.getD 0 "" == "chi2mean" && wmode == 1 then
+    if l.getD 0 "" == "chi2mean" && (wmode == 1 || wmode == 3) then
       let mean := parseF (l.getD 1 "")
       let bound := 6.0 * (2.0 / (dof.toFloat * nF)).sqrt + 0.01
       acc := { acc with compared := acc.compared + 1 }
